@@ -488,8 +488,217 @@ def store_site_contracts(reg):
     return out
 
 
+# ----------------------------------------------------------- the registry --
+def hint_term(shape):
+    k = shape[0]
+    if k == "any":
+        return H.HAny
+    if k == "prim":
+        return H.HPrim(shape[1])
+    if k == "bytes":
+        return H.HBytes
+    if k == "bytearray":
+        return H.HBytearray
+    if k == "bytesio":
+        return H.HBytesIO
+    if k == "opt":
+        return H.HOpt(hint_term(shape[1]))
+    if k == "u604":
+        return H.H604(hint_term(shape[1]))
+    if k == "list":
+        return H.HList(hint_term(shape[1]))
+    if k == "listbare":
+        return H.HListBare
+    if k == "dict":
+        return H.HDict(hint_term(shape[1]), hint_term(shape[2]))
+    if k == "dictbare":
+        return H.HDictBare
+    if k == "cls":
+        return H.HCls(sv(shape[1]))
+    return None
+
+
+def shape_problems(shape, known_classes):
+    """Reasons why a hint shape is outside what the lemmas cover ([] = covered), second: definite?"""
+    from contracts import c05registry as R
+    t = hint_term(shape)
+
+    def others(s_):
+        if s_[0] in ("other", "none", "classvar"):
+            return [s_]
+        return [x for sub in s_[1:] if isinstance(sub, tuple) for x in others(sub)]
+
+    def clss(s_):
+        if s_[0] == "cls":
+            return [s_[1]]
+        return [x for sub in s_[1:] if isinstance(sub, tuple) for x in clss(sub)]
+    bad = others(shape)
+    if bad:
+        return [f"annotation outside the modelled hint shapes: {R.shape_text(b)}" for b in bad], False
+    unknown = [c for c in clss(shape) if c not in known_classes and c not in ("list", "dict", "tuple", "set", "object")]
+    if unknown:
+        return [f"class {c} is not defined in data_types.py" for c in unknown], False
+    if not z3.is_true(sp.norm(sp.COV(t))):
+        return [f"hint shape {R.shape_text(shape)} is not decoded as DESER specifies (COV fails: e.g. `X | None` around a non-primitive, "
+                f"nested Optional, non-str dict key)"], True
+    return [], True
+
+
+def registry(repo, tier):
+    from contracts import c05registry as R
+    obls, und = [], []
+    d = R.derive(repo)
+    classes = d["classes"]
+    known = set(d["all_classes"])
+    short = "data_types.py"
+    for name, info in sorted(classes.items()):
+        probs, definite = [], True
+        names = [f[0] for f in info["fields"]]
+        if len(set(names)) != len(names):
+            probs.append("duplicate field names")
+        for fname, shape, _hasdef in info["fields"]:
+            if fname in R.MARKERS:
+                probs.append(f"field `{fname}` has the name of an encoding marker")
+            ps, df = shape_problems(shape, known)
+            probs.extend(f"{fname}: {p}" for p in ps)
+            definite = definite and (df or not ps)
+        obls.append(ground_obligation(f"C05/{short}::{name}/registry#field-hints-covered", not probs,
+                                      "; ".join(probs) or f"{len(names)} field(s): " + ", ".join(f"{n}:{R.shape_text(s_)}" for n, s_, _ in info["fields"])[:300],
+                                      f"{DT_PY}:{info['lineno']}", kind="registry", backend="ground", definite=definite))
+    # environment facts used by the decoder contracts / lemmas
+    clash = sorted(set(classes) & set(BUILTIN_CLASS_NAMES + ("",)))
+    obls.append(ground_obligation(f"C05/{short}::registry/registry#no-dataclass-named-like-a-builtin", not clash, ", ".join(clash) or f"{len(classes)} classes",
+                                  DT_PY, kind="registry", backend="ground"))
+    im = classes.get("ImageMetadata")
+    ok = im is not None and all(f in [x[0] for x in im["fields"]] for f in lem.SHIM_FIELDS)
+    obls.append(ground_obligation(f"C05/{short}::ImageMetadata/registry#compat-shim-targets-are-fields", ok,
+                                  "ImageMetadata fields: " + (", ".join(x[0] for x in im["fields"]) if im else "class missing"), DT_PY, kind="registry", backend="ground"))
+    # imported names cannot smuggle foreign dataclasses into dir(data_types)
+    allowed_origins = ("io", "logging", "re", "typing", "abc.", "dataclasses.", "pathlib.", "typing.", "sharepoint2text.parsing.extractors.serialization.")
+    top_imports = {}
+    for node in d["module"].tree.body:        # only module-level imports become attributes of the module
+        if isinstance(node, ast.Import):
+            for a in node.names:
+                top_imports[a.asname or a.name.split(".")[0]] = a.name
+        elif isinstance(node, ast.ImportFrom) and node.module:
+            for a in node.names:
+                top_imports[a.asname or a.name] = f"{node.module}.{a.name}"
+    allowed_origins = allowed_origins + ("__future__.",)
+    foreign = sorted(n for n, o in top_imports.items() if not (o in allowed_origins or o.startswith(allowed_origins)))
+    obls.append(ground_obligation(f"C05/{short}::registry/registry#imports-bring-no-foreign-dataclass", not foreign,
+                                  "imports from: " + ", ".join(foreign) if foreign else f"{len(top_imports)} module-level imported names, none a dataclass type",
+                                  DT_PY, kind="registry", backend="ground", definite=False))
+    # __post_init__ only normalises its own fields idempotently (strip / dict mirror)
+    bad = []
+    for name, info in classes.items():
+        if not info["post_init"]:
+            continue
+        cn = d["module"].classes[name]
+        fn = [b for b in cn.body if isinstance(b, ast.FunctionDef) and b.name == "__post_init__"][0]
+        for st_ in fn.body:
+            txt = ast.unparse(st_)
+            ok_ = (isinstance(st_, ast.Assign) and len(st_.targets) == 1 and isinstance(st_.value, ast.Call)
+                   and ast.unparse(st_.value) == ast.unparse(st_.targets[0]) + ".strip()") or txt.startswith("dict.__init__(self")
+            if not ok_:
+                bad.append(f"{name}.__post_init__: {txt[:80]}")
+    obls.append(ground_obligation(f"C05/{short}::registry/registry#post-init-is-idempotent-normalisation", not bad, "; ".join(bad) or "x = x.strip() / dict mirror only",
+                                  DT_PY, kind="registry", backend="ground", definite=False))
+    # cross-check against the real reflective registry (native, real typing objects)
+    import tempfile
+    expect = {n: [(f, R.shape_text(s_)) for f, s_, _ in info["fields"]] for n, info in classes.items()}
+    try:
+        pr = subprocess.run(["/venv/bin/python", os.path.join(os.path.dirname(os.path.dirname(os.path.abspath(__file__))), "replay", "C05.py"), "--registry-dump"],
+                            capture_output=True, text=True, timeout=300, env=dict(os.environ, VERIF_REPO=repo))
+        real = json.loads(pr.stdout.strip().splitlines()[-1])
+        real = {k: [tuple(x) for x in v] for k, v in real.items()}
+        diff = []
+        for n in sorted(set(real) | set(expect)):
+            if n not in real:
+                diff.append(f"{n}: in the AST registry only")
+            elif n not in expect:
+                diff.append(f"{n}: in the reflective registry only")
+            elif real[n] != expect[n]:
+                diff.append(f"{n}: fields/hints differ: AST {expect[n][:3]} vs real {real[n][:3]}")
+        obls.append(ground_obligation(f"C05/{short}::registry/registry#matches-reflective-registry", not diff, "; ".join(diff[:6]) or f"{len(real)} classes, fields and hint shapes identical",
+                                      DT_PY, kind="registry", backend="native"))
+    except Exception as e:  # noqa
+        obls.append(ground_obligation(f"C05/{short}::registry/registry#matches-reflective-registry", False, f"native cross-check failed to run: {e}; {pr.stderr[-300:] if 'pr' in dir() else ''}",
+                                      DT_PY, kind="registry", backend="native", definite=False))
+    m = d["module"]
+    fns = [{"function": f"{DT_PY}::<dataclass registry>", "lines": [1, len(m.source.splitlines())], "file_sha256": m.sha256, "segment_sha256": m.sha256,
+            "obligations": len(obls)}]
+    return {"obligations": obls, "functions": fns, "undecided": und}
+
+
+def ods_cell_kinds(repo, tier):
+    from contracts import c05registry as R
+    m = loader.module(ODS_PY, repo)
+    fn = m.functions.get("_extract_cell_value")
+    oid = "C05/ods_extractor.py::_extract_cell_value/kind-flow#json-able-scalar-into-Any-field"
+    if fn is None:
+        return {"obligations": [], "undecided": [{"obligation": oid, "why": "contract-target-missing"}]}
+    rets = R.first_component_kinds(fn, {"cell": {"xml-element"}})
+    bad = [(ln, sorted(k)) for ln, k in rets if not k <= R.JSON_KINDS]
+    definite = all("unknown" not in k for _ln, k in bad)
+    ob = ground_obligation(oid, bool(rets) and not bad, "; ".join(f"line {ln}: {k}" for ln, k in bad) or
+                           f"{len(rets)} return sites, first components: " + ", ".join(sorted({x for _l, k in rets for x in k})), f"{ODS_PY}:{fn.lineno}",
+                           kind="kind-flow", backend="dataflow", definite=definite)
+    return {"obligations": [ob], "functions": [dict(m.fn_info("_extract_cell_value"), obligations=1)]}
+
+
+def covers(repo, tier):
+    """Vacuity guards: the premises of the round-trip lemma are satisfiable for the interesting constructors."""
+    L = lem
+    obls = []
+    for name, t in (("Dict", V.Dict(L.xk)), ("DC", V.DC(L.cn, L.xk)), ("List", V.List(L.xl)), ("Bytes", V.Bytes(L.bn))):
+        s_ = z3.Solver()
+        s_.set("timeout", 10000)
+        s_.add(sp.norm(z3.And(sp.WF(t), sp.NOMARK(t), sp.INH(t, L.h), sp.COV(L.h))))
+        if name == "DC":
+            s_.add(L.xk == KV.kcons(sv("a"), V.Str(sv("_type")), KV.knil), sp.FIELDS(L.cn) == SL.scons(sv("a"), SL.snil))
+        r = s_.check()
+        obls.append(ground_obligation(f"C05/serialization.py::spec/cover#roundtrip-premises-satisfiable.{name}", r == z3.sat, str(r), "spec", kind="cover", backend="z3",
+                                      definite=False))
+    return {"obligations": obls}
+
+
+EXTRA = [registry, ods_cell_kinds, covers]
+
+
+def recorded_exclusions():
+    root = os.path.dirname(os.path.dirname(os.path.abspath(__file__)))
+    try:
+        kf = json.load(open(os.path.join(root, "known_findings.json")))
+    except FileNotFoundError:
+        return []
+    return [f for f in kf.get("findings", []) if f.get("property") == "C05" and f.get("exclusion")]
+
+
 def lemmas():
+    lem.EXCLUDE_MARKER_KEYS = any(f["exclusion"].replace(" ", "") == "has_marker_key(v)" for f in recorded_exclusions())
     return lem.all_lemmas()
+
+
+def known_findings(kf, violations, repo, tier):
+    """Recorded findings: replay the witness on the real code; a finding that still fails prints KNOWN-FINDING and covers
+    exactly its own (unrestricted) obligation.  The restricted theorem is a separate, ordinary obligation family."""
+    out = []
+    vio_ids = {v["id"] for v in violations}
+    root = os.path.dirname(os.path.dirname(os.path.abspath(__file__)))
+    for f in kf:
+        req = {"property": "C05", "obligation": f["obligation"], "known_finding": f["id"], "witness": f.get("witness"), "repo": repo}
+        try:
+            p = subprocess.run(["/venv/bin/python", os.path.join(root, "replay", "run.py")], input=json.dumps(req), capture_output=True, text=True,
+                               timeout=600, env=dict(os.environ, VERIF_REPO=repo))
+            lines = [l for l in p.stdout.splitlines() if l.startswith("{")]
+            res = json.loads(lines[-1]) if lines else {"reproduced": False, "note": p.stderr[-300:]}
+        except Exception as e:  # noqa
+            res = {"reproduced": False, "note": str(e)}
+        still = bool(res.get("reproduced"))
+        covers_ = [o for o in f.get("covers", [f["obligation"]]) if o in vio_ids] if still else []
+        out.append({"finding": f["id"], "still_fails": still, "line": f"{f['id']}: {f['what']}", "covers": covers_, "exclusion": f.get("exclusion"),
+                    "proved_under_exclusion": f.get("proved_under_exclusion"), "witness_replay": res.get("observed", res.get("note", ""))})
+    return out
 
 
 TRUSTED = ["contracts/c05spec.norm (definitional rewriting of the spec functions)"]
